@@ -275,3 +275,32 @@ Fixpoint sound_along (P : pcfg) (s : pstate) (ops : list oprec) (h : list action
       end && sound_along P s' ops' h'
     end
   end.
+
+(* ------------------------------------------------------------------ a directory that has left the tree (repair of F10) *)
+(* [q] is the directory [p] or lies below it *)
+Definition tgt (p q : bytes) : bool := beqb q p || starts (p ++ [sep]) q.
+
+(* the kernel still has a watch with this descriptor *)
+Definition has_wd (k : kst) (wd : N) : bool := existsb (fun x => N.eqb (kw_wd x) wd) (k_watches k).
+
+(* _path_for_wd and _wd_for_path agree: a descriptor's path is keyed back to the descriptor *)
+Definition consistent (r : rstate) : Prop :=
+  forall wd q, alookup N.eqb wd (pfw r) = Some q -> alookup beqb q (wfp r) = Some wd.
+
+(* recorded paths are normalised: not empty, no trailing "/" *)
+Definition pfw_norm (r : rstate) : Prop :=
+  forall wd q, alookup N.eqb wd (pfw r) = Some q -> q <> [] /\ last_is_sep q = false.
+
+(* no descriptor is recorded with the path [p] or a path below it (and recorded paths are normalised) *)
+Definition clean (p : bytes) (r : rstate) : Prop :=
+  forall wd q, alookup N.eqb wd (pfw r) = Some q -> tgt p q = false /\ q <> [] /\ last_is_sep q = false.
+
+Definition name_ok (n : bytes) : Prop := n = [] \/ valid_name n = true.
+
+(* records that cannot (re-)introduce a name: everything except IN_MOVED_TO and IN_CREATE|IN_ISDIR *)
+Definition quiet (e : kraw) : Prop :=
+  name_ok (k_name e) /\ is_moved_to (k_mask e) = false /\ is_directory (k_mask e) && is_create (k_mask e) = false.
+
+(* a record that is quiet, or arrives on a descriptor that state [r0] does not know (it is dropped) *)
+Definition quiet_or_unknown (r0 : rstate) (e : kraw) : Prop :=
+  quiet e \/ alookup N.eqb (k_wd e) (pfw r0) = None.
